@@ -237,6 +237,8 @@ PROPS["C16"]["trusted_base"] = PROPS["C16"]["trusted_base"] + TB_SCHED
 PROPS["C03"]["components"].append(Sched("tc", 1500, 60000, label="sched-tc-gate"))
 PROPS["C03"]["trusted_base"] = PROPS["C03"]["trusted_base"] + TB_SCHED
 
+PROPS["C08"]["components"].append(OverrideMeta(1500, 40000))
+PROPS["C08"]["rule"] += " override-meta (metamorphic, real code only): histories with an episode setcfg fo=1|dis=1, calls, setcfg fo=0|dis=0 (often over an open circuit whose sleep window has elapsed) are re-run with the episode replaced by the passage of its clock readings; every later op must answer identically ('clearing an override resumes the underlying state')."
 PROPS["C10"]["components"].append(Sched("gauge", 2000, 100000, label="sched-gauge-panic", only="C10:"))
 PROPS["C10"]["rule"] += " gauge (schedules): 2-5 concurrent callers among succeeding / failing / panicking run functions and fallbacks under every limit: a panic reaches its own caller with its value, nobody else sees one, and both gauges read zero once all returned."
 PROPS["C10"]["trusted_base"] = PROPS["C10"]["trusted_base"] + TB_SCHED
